@@ -332,6 +332,8 @@ class Inliner:
         self.inlined: Dict[str, Set[str]] = {}     # helper qualname -> roots it was inlined into
         self.declined: Dict[str, str] = {}         # helper qualname -> reason (last call site that was not inlined)
         self.declined_sites: Dict[str, int] = {}   # helper qualname -> number of call sites left as calls
+        self.fn_alias: Dict[str, FuncInfo] = {}    # (renamed) parameter name -> function it was bound to at an inlined call
+        self._local_cls_cache: Dict[tuple, object] = {}
 
     def is_new(self, fi: FuncInfo) -> bool:
         if self.reference is None or fi.qualname in self.reference:
@@ -359,21 +361,27 @@ class Inliner:
         if any(isinstance(a, ast.Starred) for a in call.args) or any(k.arg is None for k in call.keywords):
             return None
         fn = call.func
-        if isinstance(fn, ast.Name):
+        t = None
+        if isinstance(fn, ast.Name) and fn.id in self.fn_alias:
+            t = self.fn_alias[fn.id]            # a parameter of an inlined helper that was bound to a function
+        elif isinstance(fn, ast.Name):
             pass
         elif isinstance(fn, ast.Attribute) and dotted(fn.value) in ("self", "cls"):
             pass
+        elif isinstance(fn, ast.Attribute) and isinstance(fn.value, ast.Name) and self._local_instance_method(root, fn) is not None:
+            t = self._local_instance_method(root, fn)   # method of a helper class instantiated in this function
         elif isinstance(fn, ast.Attribute) and dotted(fn.value) is not None and "." not in dotted(fn.value):
             pass  # Class.helper(...) / module.helper(...)
         else:
             return None
-        try:
-            res = self.P.resolve_call(root, call)
-        except Exception:
-            return None
-        if len(res.targets) != 1 or res.how.startswith("ctor") or res.how in ("cha",):
-            return None
-        t = res.targets[0]
+        if t is None:
+            try:
+                res = self.P.resolve_call(root, call)
+            except Exception:
+                return None
+            if len(res.targets) != 1 or res.how.startswith("ctor") or res.how in ("cha",):
+                return None
+            t = res.targets[0]
         if not self.is_new(t):
             return None
         if usage == "for" and isinstance(t.node, ast.FunctionDef) and not any(isinstance(n, (ast.Yield, ast.YieldFrom)) for n in walk_local(t.node)):
@@ -389,6 +397,45 @@ class Inliner:
                 self.declined_sites[t.qualname] = self.declined_sites.get(t.qualname, 0) + 1
             return None
         return t
+
+    def _local_instance_method(self, root: FuncInfo, fn: ast.Attribute) -> Optional[FuncInfo]:
+        """``obj.method`` where ``obj`` is a local bound exactly once, to an instance of a class unknown to the
+        reference tree (``obj = Helper(...)`` / ``obj = Helper.classmethod(...)``): that class's method."""
+        name = fn.value.id
+        key = (root.qualname, name)
+        if key not in self._local_cls_cache:
+            ci = None
+            assigns = []
+            base = getattr(root, "inherited_from", None) or root
+            for n in walk_local(base.node):
+                if isinstance(n, ast.Name) and isinstance(n.ctx, ast.Store) and n.id == name:
+                    assigns.append(n)
+            values = [n.value for n in walk_local(base.node) if isinstance(n, (ast.Assign, ast.AnnAssign)) and n.value is not None
+                      and any(isinstance(t_, ast.Name) and t_.id == name for t_ in (n.targets if isinstance(n, ast.Assign) else [n.target]))]
+            if len(assigns) == 1 and len(values) == 1 and isinstance(values[0], ast.Call) and name not in base.params:
+                d = dotted(values[0].func)
+                if d:
+                    kind, obj = self.P.resolve_dotted(base.module, d, base)
+                    if kind == "class":
+                        ci = obj
+                    elif kind == "func" and obj.cls is not None and "classmethod" in obj.decorators:
+                        ci = obj.cls
+                    elif "." in d:
+                        k2, o2 = self.P.resolve_dotted(base.module, d.rsplit(".", 1)[0], base)
+                        if k2 == "class":
+                            m = self.P.lookup_method(o2, d.rsplit(".", 1)[1])
+                            if m is not None and "classmethod" in m.decorators:
+                                ci = o2
+            if ci is not None and (self.reference is None or ci.qualname in self.reference):
+                ci = None          # only classes the rules do not know
+            self._local_cls_cache[key] = ci
+        ci = self._local_cls_cache[key]
+        if ci is None:
+            return None
+        m = self.P.lookup_method(ci, fn.attr)
+        if m is None or "property" in m.decorators or "staticmethod" in m.decorators or "classmethod" in m.decorators:
+            return None
+        return m
 
     def _why_not(self, root, t: FuncInfo, site, call, stack, usage) -> Optional[str]:
         if t.qualname in stack or t is root:
@@ -491,6 +538,8 @@ class Inliner:
                 mapping[bound_self] = recv
             elif "classmethod" in t.decorators:
                 mapping[bound_self] = bound_self  # the class object: left symbolic
+            elif recv is not None and "." not in recv and recv not in ("self", "cls"):
+                mapping[bound_self] = recv        # method of a local helper object: `self.x` reads become `obj.x`
             else:
                 mapping[bound_self] = recv or target_self
         for p in params + kwonly:
@@ -502,6 +551,21 @@ class Inliner:
                 continue
             np_ = fresh(p)
             mapping[p] = np_
+            # a function handed in as an argument (callback): calls through the parameter can be inlined too
+            if isinstance(arg, (ast.Name, ast.Attribute)) and p not in assigned:
+                d_ = dotted(arg)
+                tf = None
+                if isinstance(arg, ast.Name) and arg.id in self.fn_alias:
+                    tf = self.fn_alias[arg.id]
+                elif d_:
+                    try:
+                        kind_, obj_ = self.P.resolve_dotted(root.module, d_, getattr(root, "inherited_from", None) or root)
+                    except Exception:
+                        kind_, obj_ = None, None
+                    if kind_ == "func":
+                        tf = obj_
+                if tf is not None:
+                    self.fn_alias[np_] = tf
             asg = ast.Assign(targets=[ast.Name(id=np_, ctx=ast.Store())], value=arg, lineno=ln, col_offset=0)
             asg.inline_bind = t.qualname
             pre.append(asg)
@@ -570,3 +634,33 @@ def has_jump(stmts: List[ast.stmt]) -> bool:
                     return True
         return False
     return scan(stmts, False)
+
+
+def yield_is_tail(fn: ast.AST) -> bool:
+    """The (single) ``yield`` statement of a context-manager generator is in tail position: nothing runs after it on
+    the normal path except leaving the ``with`` / ``try`` statements that enclose it (no ``else`` / ``finally``)."""
+    def tail(stmts) -> Optional[bool]:
+        """True: contains the yield, in tail position; False: contains it, not tail; None: no yield here."""
+        for i, st in enumerate(stmts):
+            here = None
+            if isinstance(st, ast.Expr) and isinstance(st.value, ast.Yield):
+                here = True
+            elif isinstance(st, (ast.With, ast.AsyncWith)):
+                here = tail(st.body)
+            elif isinstance(st, ast.Try):
+                here = tail(st.body)
+                if here is not None and (st.orelse or st.finalbody):
+                    here = False
+                for h in st.handlers:
+                    if tail(h.body) is not None:
+                        here = False
+                if tail(st.orelse) is not None or tail(st.finalbody) is not None:
+                    here = False
+            elif isinstance(st, (ast.If, ast.For, ast.AsyncFor, ast.While)):
+                inner = [tail(st.body), tail(st.orelse)]
+                if any(x is not None for x in inner):
+                    here = False
+            if here is not None:
+                return here and i == len(stmts) - 1
+        return None
+    return tail(fn.body) is True
